@@ -14,6 +14,7 @@ func init() { Registry["C10"] = c10 }
 
 func c10(r *Report) {
 	p := r.P
+	defer c10Audit4(r)
 	const ds = "vdr/didnuts/didstore"
 	r.Explanation = "Static decision of the determinism clause of order-independent did:nuts resolution: (1) DETERM over every function of the didstore package: each loop that ranges over a Go map is analysed; an append inside such a loop must feed a slice that is sorted (sort.Slice/Strings/...) before it escapes — in the same function after the loop or in every caller after the call — and the loop must contain no fold through a function, callback, first-match return, string concatenation or last-writer-wins store; (2) the event order is total: every constant return of event.before is behind a strict comparison and the remaining return is the transaction-reference comparison (unique tie-break); (3) the ordered event list is written only by insert; (4) deactivation is sticky: the Deactivated flag written when applying a document is the disjunction with the current version's flag; (5) writeEventList recomputes every element's positional MetaRef unconditionally (positions shift after an out-of-order insert); (6) the conflicted-documents counter changes by (conflicted now) - (was on the conflicted shelf): the prior flag is true only behind a non-empty read of that shelf."
 	r.NotDecided = []string{"order-independence of the event algebra over all n! arrival orders (an algebraic law of insert/applyFrom over runtime values)", "that entries with equal ids in two parallel documents have equal contents (merge picks the later one)"}
